@@ -79,36 +79,58 @@ def only_assign(stmts, target, where):
     return hits[0]
 
 
+def uses(node, name):
+    return any(isinstance(n, ast.Name) and n.id == name for n in ast.walk(node))
+
+
+def dr_assign(stmts, where):
+    """the unique assignment among stmts whose right-hand side mentions dr"""
+    hits = [s for s in stmts if isinstance(s, ast.Assign) and len(s.targets) == 1 and uses(s.value, 'dr')]
+    if len(hits) != 1:
+        raise Unsupported('%s: expected exactly one assignment using dr, found %d' % (where, len(hits)))
+    return hits[0]
+
+
 def gen_hansenlaw(defs):
     path, funcs = parse('abel/hansenlaw.py')
     fn = funcs['hansenlaw_transform']
+    img = fn.args.args[0].arg                  # the image parameter (whatever it is called)
     top = find_if(fn, "direction == 'forward'")
-    a = only_assign(top.body, 'drive', 'hansenlaw forward')
+    a = dr_assign(top.body, 'hansenlaw forward')
+    if not isinstance(a.targets[0], ast.Name):
+        raise Unsupported('hansenlaw forward: the driving function is not assigned to a variable')
+    drv = a.targets[0].id
     defs.append(('hl_drive_forward', '(dr pi v : A)',
-                 elem(a.value, {'dr': 'dr', 'np.pi': 'pi', 'image': 'v'}, 'hansenlaw.py:%d' % a.lineno),
-                 'abel/hansenlaw.py:%d  drive = %s' % (a.lineno, ast.unparse(a.value))))
+                 elem(a.value, {'dr': 'dr', 'np.pi': 'pi', img: 'v'}, 'hansenlaw.py:%d' % a.lineno),
+                 'abel/hansenlaw.py:%d  %s = %s' % (a.lineno, drv, ast.unparse(a.value))))
     inner = [s for s in top.orelse if isinstance(s, ast.If)]
     if len(inner) != 1 or ast.unparse(inner[0].test) != 'hold_order == 0':
         raise Unsupported('hansenlaw inverse: expected `if hold_order == 0`')
     inner = inner[0]
-    z = only_assign(inner.body, 'drive', 'hansenlaw inverse hold 0')
-    if ast.unparse(z.value) != 'np.zeros_like(image)':
-        raise Unsupported('hansenlaw inverse hold 0: drive is not initialised with zeros_like(image)')
-    d = only_assign(inner.body, 'drive[:, :-1]', 'hansenlaw inverse hold 0')
+    z = only_assign(inner.body, drv, 'hansenlaw inverse hold 0')
+    if ast.unparse(z.value) != 'np.zeros_like(%s)' % img:
+        raise Unsupported('hansenlaw inverse hold 0: the driving function is not initialised with zeros_like(image)')
+    d = dr_assign(inner.body, 'hansenlaw inverse hold 0')
+    if ast.unparse(d.targets[0]) != '%s[:, :-1]' % drv:
+        raise Unsupported('hansenlaw inverse hold 0: target is %s' % ast.unparse(d.targets[0]))
     defs.append(('hl_drive_inverse0', '(dr x1 x0 : A)',
-                 elem(d.value, {'dr': 'dr', 'image[:, 1:]': 'x1', 'image[:, :-1]': 'x0'}, 'hansenlaw.py:%d' % d.lineno),
-                 'abel/hansenlaw.py:%d  drive[:, :-1] = %s   (x1 = next column, x0 = this column; last column 0)'
-                 % (d.lineno, ast.unparse(d.value))))
-    g = only_assign(inner.orelse, 'drive', 'hansenlaw inverse hold 1')
-    if ast.unparse(g.value) != 'np.gradient(image, dr, axis=-1)':
-        raise Unsupported('hansenlaw inverse hold 1: expected np.gradient(image, dr, axis=-1), found %s' % ast.unparse(g.value))
+                 elem(d.value, {'dr': 'dr', '%s[:, 1:]' % img: 'x1', '%s[:, :-1]' % img: 'x0'}, 'hansenlaw.py:%d' % d.lineno),
+                 'abel/hansenlaw.py:%d  %s[:, :-1] = %s   (x1 = next column, x0 = this column; last column 0)'
+                 % (d.lineno, drv, ast.unparse(d.value))))
+    g = dr_assign(inner.orelse, 'hansenlaw inverse hold 1')
+    if ast.unparse(g.targets[0]) != drv or ast.unparse(g.value) != 'np.gradient(%s, dr, axis=-1)' % img:
+        raise Unsupported('hansenlaw inverse hold 1: expected %s = np.gradient(%s, dr, axis=-1), found %s' % (drv, img, ast.unparse(g)))
     defs.append(('hl_gradient_spacing', '(dr : A)', 'dr',
-                 'abel/hansenlaw.py:%d  drive = np.gradient(image, dr, axis=-1): spacing of numpy.gradient' % g.lineno))
+                 'abel/hansenlaw.py:%d  %s = np.gradient(%s, dr, axis=-1): spacing of numpy.gradient' % (g.lineno, drv, img)))
     n = len(loads_of(fn, 'dr'))
     if n != 3:
-        raise Unsupported('hansenlaw_transform uses dr at %d places (expected exactly the 3 drive definitions)' % n)
-    # a = 1 (forward) / a = 0 (inverse) select the tables only
-    return
+        raise Unsupported('hansenlaw_transform uses dr at %d places (expected exactly the 3 definitions of the driving function)' % n)
+    # the image itself must not be used after the driving function is built, except for its shape
+    later = [s for s in fn.body if s.lineno > top.end_lineno]
+    for s in later:
+        for nd in ast.walk(s):
+            if isinstance(nd, ast.Name) and nd.id == img and isinstance(nd.ctx, ast.Load):
+                raise Unsupported('hansenlaw_transform: the image is used after the driving function is built (line %d)' % nd.lineno)
 
 
 def gen_onion_bordas(defs):
@@ -118,9 +140,9 @@ def gen_onion_bordas(defs):
     if len(ret) != 1 or fn.body[-1] is not ret[0]:
         raise Unsupported('onion_bordas_transform: expected a single final return')
     e = ret[0].value
-    if not (isinstance(e, ast.BinOp) and isinstance(e.op, ast.Div) and ast.unparse(e.left) == 'abel_arr'):
-        raise Unsupported('onion_bordas_transform: return is not abel_arr/<expr>')
-    defs.append(('ob_scale', '(dr y : A)', elem(e, {'dr': 'dr', 'abel_arr': 'y'}, 'onion_bordas.py:%d' % ret[0].lineno),
+    if not (isinstance(e, ast.BinOp) and isinstance(e.op, (ast.Div, ast.Mult)) and isinstance(e.left, ast.Name)):
+        raise Unsupported('onion_bordas_transform: return is not <array> / <expr> : %s' % ast.unparse(e))
+    defs.append(('ob_scale', '(dr y : A)', elem(e, {'dr': 'dr', e.left.id: 'y'}, 'onion_bordas.py:%d' % ret[0].lineno),
                  'abel/onion_bordas.py:%d  return %s' % (ret[0].lineno, ast.unparse(e))))
     if len(loads_of(fn, 'dr')) != 1:
         raise Unsupported('onion_bordas_transform uses dr elsewhere than in the final scaling')
